@@ -1,9 +1,17 @@
 package main
 
 import (
+	"bytes"
 	"fmt"
+	goformat "go/format"
+	"go/parser"
+	goprinter "go/printer"
+	"go/token"
 	"os"
 	"strconv"
+
+	xformat "github.com/goplus/gogen/internal/go/format"
+	xprinter "github.com/goplus/gogen/internal/go/printer"
 
 	"github.com/goplus/gogen/verif/internal/drive"
 	"github.com/goplus/gogen/verif/internal/gen"
@@ -100,4 +108,26 @@ func progWithFault(r *h.Rand, fault string, k int) (string, string) {
 	gen.Faults = []string{fault, fault}
 	defer func() { gen.Faults = save }()
 	return gen.ProgramWithFault(r, 2, 3, 40, fr)
+}
+
+func c12Main(fn string) {
+	src, _ := os.ReadFile(fn)
+	f, err := parser.ParseFile(token.NewFileSet(), fn, src, parser.SkipObjectResolution)
+	if err != nil {
+		fmt.Println(err)
+		return
+	}
+	ref.StripPositions(f)
+	var b bytes.Buffer
+	err = xformat.Node(&b, token.NewFileSet(), &xprinter.CommentedNodes{Node: f})
+	fmt.Println("fork error:", err)
+	fmt.Print(b.String())
+	fm, err := goformat.Source(b.Bytes())
+	fmt.Println("--- gofmt fixed point:", bytes.Equal(fm, b.Bytes()), err)
+	if !bytes.Equal(fm, b.Bytes()) {
+		fmt.Print(string(fm))
+	}
+	var sb bytes.Buffer
+	(&goprinter.Config{Mode: goprinter.UseSpaces | goprinter.TabIndent, Tabwidth: 8}).Fprint(&sb, token.NewFileSet(), f)
+	fmt.Println("--- std printer equals fork:", bytes.Equal(sb.Bytes(), b.Bytes()))
 }
